@@ -48,6 +48,21 @@ class ContinueEx(Exception):
     pass
 
 
+class CarriedUnknown:
+    """value of a variable that is assigned in a loop body but that the loop's contract (LoopSpec.havoc) does not describe: at the start of a generic
+    iteration it holds whatever an earlier iteration left there.  Identity / equality tests and truth tests on it are explored both ways; any other use
+    is outside the supported subset (undecided)."""
+
+    def __init__(self, name):
+        self.name = name
+
+    def __repr__(self):
+        return f"<loop-carried {self.name}>"
+
+    def _pv_getattr(self, ex, name):
+        raise OutsideSubset(f"attribute {name} of loop-carried variable `{self.name}` that the loop contract does not describe")
+
+
 class FStr(str):
     """result of an f-string with symbolic fields: the text with `<?>` placeholders plus the field values (`sym_parts`)"""
 
@@ -304,6 +319,58 @@ class Module:
 
 # ----------------------------------------------------------------------------------
 # contracts for loops
+
+
+def _assigned_names(loop):
+    """names (simple variables) assigned anywhere in the body of a for / while statement"""
+    out = set()
+    for node in loop.body:
+        for n in ast.walk(node):
+            tgts = []
+            if isinstance(n, ast.Assign):
+                tgts = n.targets
+            elif isinstance(n, (ast.AugAssign, ast.AnnAssign)):
+                tgts = [n.target]
+            elif isinstance(n, (ast.For, ast.AsyncFor)):
+                tgts = [n.target]
+            elif isinstance(n, (ast.With, ast.AsyncWith)):
+                tgts = [i.optional_vars for i in n.items if i.optional_vars is not None]
+            elif isinstance(n, ast.NamedExpr):
+                tgts = [n.target]
+            for t in tgts:
+                for x in ast.walk(t):
+                    if isinstance(x, ast.Name) and isinstance(x.ctx, ast.Store):
+                        out.add(x.id)
+    return out
+
+
+def _load_keeps():
+    path = os.path.join(os.path.dirname(os.path.abspath(__file__)), "loop_keeps.json")
+    try:
+        import json
+        return {k: set(v) for k, v in json.load(open(path)).items()}
+    except Exception:  # noqa: BLE001
+        return {}
+
+
+_LOOP_KEEPS = _load_keeps()
+_LOOP_KEEPS_NEW = {}
+
+
+def dump_recorded_keeps():
+    """VF_RECORD_KEEPS=1: merge the names seen in this process into vf/loop_keeps.json"""
+    if not _LOOP_KEEPS_NEW:
+        return
+    import json
+    path = os.path.join(os.path.dirname(os.path.abspath(__file__)), "loop_keeps.json")
+    cur = {k: set(v) for k, v in _LOOP_KEEPS.items()}
+    try:
+        cur = {k: set(v) for k, v in json.load(open(path)).items()}
+    except Exception:  # noqa: BLE001
+        pass
+    for k, v in _LOOP_KEEPS_NEW.items():
+        cur.setdefault(k, set()).update(v)
+    json.dump({k: sorted(v) for k, v in sorted(cur.items())}, open(path, "w"), indent=1)
 
 
 class LoopSpec:
@@ -1072,7 +1139,31 @@ class Exec:
         tag = f"{self.qual}/loop{k}"
         ctx.prove(f"{tag}.init", spec.invariant(self))
         which = ctx.choose(2, tag)
+        assigned = _assigned_names(s)
+        before = {}
+        for nm in assigned:
+            try:
+                before[nm] = self.env.lookup(nm)
+            except Exception:  # noqa: BLE001  (not bound before the loop: a body-local temporary)
+                pass
         spec.havoc(self)
+        if os.environ.get("VF_RECORD_KEEPS"):
+            _LOOP_KEEPS_NEW.setdefault(tag, set())
+        for nm, old in before.items():
+            try:
+                cur = self.env.lookup(nm)
+            except Exception:  # noqa: BLE001
+                continue
+            # bound before the loop, re-assigned in the body, and left untouched by the contract's havoc: loop-carried state the contract is silent about.
+            # The names each contract deliberately leaves bound (they are described through ghost state or re-bound by on_body) were recorded when the
+            # contracts were written (vf/loop_keeps.json, regenerated by hand with VF_RECORD_KEEPS=1 on a green tree); any OTHER such name is new
+            # loop-carried state introduced by the code under verification, about which the contract says nothing
+            if cur is old:
+                keeps = _LOOP_KEEPS.get(tag)
+                if os.environ.get("VF_RECORD_KEEPS"):
+                    _LOOP_KEEPS_NEW.setdefault(tag, set()).add(nm)
+                elif keeps is not None and nm not in keeps:
+                    self.env.set(nm, CarriedUnknown(nm))
         ctx.assume(spec.invariant(self))
         if which == 0:
             # exit path: invariant and not cond
@@ -1407,6 +1498,12 @@ class Exec:
         return result
 
     def compare(self, op, a, b):
+        if isinstance(a, CarriedUnknown) or isinstance(b, CarriedUnknown):
+            u = a if isinstance(a, CarriedUnknown) else b
+            if op in (ast.Is, ast.IsNot, ast.Eq, ast.NotEq):
+                # a loop-carried variable the loop contract says nothing about: it may or may not be (equal to) the other operand
+                return bool(self.ctx.choose(2, f"{u.name} {op.__name__} <other>"))
+            raise OutsideSubset(f"loop-carried variable `{u.name}` is not described by the loop contract")
         if op is ast.Is:
             return self.identical(a, b)
         if op is ast.IsNot:
@@ -1508,6 +1605,8 @@ class Exec:
     def truth(self, v):
         if isinstance(v, bool):
             return v
+        if isinstance(v, CarriedUnknown):
+            return bool(self.ctx.choose(2, f"truth of {v.name}"))
         if is_sym_bool(v):
             return self.ctx.branch(v)
         if is_z3(v):
